@@ -240,6 +240,7 @@ pub fn judge(case: &Case) -> Verdict {
     v.class_name = case.class.clone();
     v.case_key = fnv(&script);
     v.harness_error = r.harness_error.clone();
+    v.schedule = r.schedule.clone();
     v.nontrivial = case.jobs.len() >= 2;
     let viol = |class: &str, detail: String, shape: Option<&str>| Violation { class: class.to_string(), detail, known_shape: shape.map(String::from) };
     let any_task_error = case.jobs.iter().any(|j| j.fail == Fail::Nounset);
